@@ -2,7 +2,7 @@
 
 Space: docstrings are sequences of line tokens drawn from what each parser branches on (section headers of that style, dash
 lines, item syntaxes at indents 0/2/4/8, continuations, blank / whitespace-only lines, code fences, doctest lines, prose).
-All sequences up to the length bound, x 6 parents (none, module, class, function with a generator return annotation,
+All sequences up to the length bound, x 10 parents (none, module, class, functions with generator / iterator / tuple return annotations incl. tuples inside Generator[...] and a too-short Generator[int],
 __init__ of a class, property attribute) x parser options by deviation from the defaults (0, then every single flip,
 thorough: every pair).
 Oracle: returns a list of DocstringSection with a kind from the enum, a value of the shape the kind declares, JSON-serialisable;
@@ -23,7 +23,7 @@ PROPERTY = "C12"
 LEVEL = "exploration"
 NSHARDS = 96
 RULE = (
-    "all token sequences up to the length bound per style (duplicates after joining removed), each parsed under 6 parents and all option "
+    "all token sequences up to the length bound per style (duplicates after joining removed), each parsed under 10 parents and all option "
     "vectors within the deviation bound; non-trivial = the text contains at least one section-syntax token (header, dash line, field) so that "
     "a reader runs; distinct = distinct joined texts"
 )
@@ -31,7 +31,7 @@ ASSUMPTIONS = ["token alphabets in mc/checks/c12.py cover every branch condition
                "logging is disabled (warnings are not part of the property)"]
 MANIFEST = {
     "category": "exploration",
-    "text": "Bounded exhaustive enumeration of docstrings as token sequences (length <= 3 over the full alphabet plus length-4 sequences that start with a section header in quick; <= 4 full / 5 header-led in thorough) for each of the Google, Numpy and Sphinx parsers, x 6 parents x all option vectors with <= 1 (quick) / <= 2 (thorough) deviations; totality, section well-formedness, input immutability, and a structural offset-progress monitor on every section reader.",
+    "text": "Bounded exhaustive enumeration of docstrings as token sequences (length <= 3 over the full alphabet plus length-4 sequences that start with a section header in quick; <= 4 full / 5 header-led in thorough) for each of the Google, Numpy and Sphinx parsers, x 10 parents x all option vectors with <= 1 (quick) / <= 2 (thorough) deviations; totality, section well-formedness, input immutability, and a structural offset-progress monitor on every section reader.",
     "note": "Complete over the token alphabet and length bound; arbitrary characters inside tokens are represented by the listed line shapes.",
     "technique": "model checking by exhaustive small-scope enumeration of token sequences on the real parsers with a progress monitor on every reader",
 }
